@@ -138,6 +138,18 @@ def run_check(repo, chk: Check, tier, prefix):
             r, t, inf = discharge(o, timeout_ms=30000)
             ms += t
             spent += t
+            if r == "refuted" and o.meta.get("numeric") is not None:
+                # algebraic obligation: is the counter-model realisable under the STANDARD interpretation of the operators?
+                from . import numeval
+                nv = numeval.validate(o, inf.get("model"), o.meta["numeric"], seed=int(os.environ.get("VERIF_SEED", "0") or 0))
+                if nv["status"] == "spurious":
+                    r = "unknown"
+                    inf = {"reason": "counter-model not realisable: under the standard interpretation of the operators the code term and the "
+                                     f"spec term agree on {nv['admissible_samples']} admissible sampled inputs (families {', '.join(nv['families'])}); "
+                                     "syntactically different terms, undecided by the deductive arm"}
+                else:
+                    inf = dict(inf)
+                    inf["numeric"] = nv
             if r == "discharged":
                 # cover: hypotheses must be satisfiable, else the instance is vacuous
                 if not o.meta.get("cover_known", False):
@@ -169,6 +181,8 @@ def run_check(repo, chk: Check, tier, prefix):
                "result": res if res in ("discharged", "refuted") else "undecided", "ms": ms, "kind": chk.kind,
                "instances": len(insts), "vacuous_instances": vac, "replay_keys": chk.replay_keys, "focus": chk.focus}
         if res == "refuted":
+            if info.get("numeric") is not None:
+                rec["numeric"] = info["numeric"]
             rec["model"] = info.get("model")
             rec["solver_output"] = info.get("solver_output")
         elif rec["result"] == "undecided":
